@@ -32,6 +32,10 @@ PACKS = {
     "trim": dict(trim=True),
     "trimsym": dict(trim=True, sym=True),
     "trimonly": dict(trimonly=True),
+    "trimrename": dict(trimrename=True),
+    "hidden": dict(hidden=True),
+    "pfactory2": dict(pfactory2=True),
+    "noinf": dict(noinf=True),
     "rename": dict(rename=True),
     "mono": dict(mono=True),
     "fac2": dict(fac2=True),
@@ -40,9 +44,9 @@ PACKS = {
     "onewaysym": dict(oneway=True, inf=True, sym=True),
 }
 # packs whose point is a statistics mechanism always run with statistics; the cycle symmetry needs three letters
-PACK_STATS = {"trim": "s2", "trimsym": "s2", "rename": "s2", "mono": "s1", "trimonly": "s2"}
+PACK_STATS = {"trim": "s2", "trimsym": "s2", "rename": "s2", "mono": "s1", "trimonly": "s2", "trimrename": "s2", "hidden": "s1"}
 PACK_EXTRA_PATTERNS = {"trim": [("ba",), ("aa", "ab"), ("ab",)], "trimsym": [("ba",)], "mono": [("ba",)],
-                       "trimonly": [("aa", "ab"), ("ba",), ("ab", "bb")]}
+                       "trimonly": [("aa", "ab"), ("ba",), ("ab", "bb")], "trimrename": [("ab", "ba"), ("ba",)]}
 STATS = {
     "s0": (),
     "s1": (("k1", "a"),),
@@ -94,7 +98,7 @@ def configs(tier: str, seed: int, flavours=("default", "forget", "forest"), pack
     if max_n:
         # configurations that must not be sampled away: the packs that exist for one specific mechanism
         special = [c for c in out if c[4] in ("lazy", "needrev", "oneway", "onewaysym", "pfactory", "split", "trim", "trimsym", "rename",
-                                              "mono", "fac2", "symcycle", "trimonly")]
+                                              "mono", "fac2", "symcycle", "trimonly", "trimrename", "hidden", "pfactory2", "noinf")]
         keep = []
         seen = set()
         for c in special:
